@@ -91,7 +91,53 @@ fn semicomplete_minus(rng: &mut Rng, n: usize) -> Desc {
     Desc { repr: "al".to_string(), verts: (0..n).collect(), arcs, weights: vec![1; k] }
 }
 
+/// Sparse digraph whose arcs leave the trailing rows (cheap for the driver at large orders).
+fn desc_sparse_tail(rng: &mut Rng, repr: &str, n: usize) -> Desc {
+    let mut arcs = vec![];
+    for u in (n.saturating_sub(40))..n {
+        for _ in 0..2 {
+            let v = rng.below(n);
+            if v != u && !arcs.contains(&(u, v)) {
+                arcs.push((u, v));
+            }
+        }
+    }
+    for _ in 0..n / 8 {
+        let (u, v) = (rng.below(n), rng.below(n));
+        if u != v && !arcs.contains(&(u, v)) {
+            arcs.push((u, v));
+        }
+    }
+    let k = arcs.len();
+    Desc { repr: repr.to_string(), verts: (0..n).collect(), arcs, weights: vec![1; k] }
+}
+
+/// Out-of-distribution stream for the failing-input search (orders beyond every "rows per thread"
+/// heuristic: 192.., 256·t ± 1, 513, 770, 1030): only emitted in the `stress` tier.
+fn gen_stress(rng: &mut Rng, emit: &mut dyn FnMut(String)) {
+    for &n in &[193usize, 257, 300, 513, 770, 1030] {
+        emit(format!("gen_complete al {n}"));
+        emit(format!("q_degseq {}", desc_sparse_tail(rng, "al", n).to_v()));
+        emit(format!("ops_complement {}", desc_sparse_tail(rng, "al", n).to_v()));
+        let m = n - 1 - rng.below(n / 3);
+        emit(format!("ops_union {} {}", desc_sparse_tail(rng, "al", n).to_v(), desc_sparse_tail(rng, "al", m).to_v()));
+        emit(format!("ops_union {} {}", desc_sparse_tail(rng, "am", n).to_v(), desc_sparse_tail(rng, "am", m).to_v()));
+        let seed = rng.next();
+        emit(format!("rand_er am {n} {} {} {seed}", 0.01f64.to_bits(), (1.0f64 - 0.01).to_bits()));
+        if n <= 300 {
+            emit(format!("pred_unary {}", semicomplete_minus(rng, n).to_v()));
+        }
+        if n <= 800 {
+            emit(format!("rand_tournament am {n} {seed}"));
+        }
+    }
+}
+
 pub fn gen(rng: &mut Rng, thorough: bool, emit: &mut dyn FnMut(String)) {
+    if crate::stress() {
+        gen_stress(rng, emit);
+        return;
+    }
     let ns = orders(rng, thorough);
     for &n in &ns {
         // AdjacencyList::complete
